@@ -95,13 +95,13 @@ theorem roundtrip_blackbird_command (P : String → Option Sym) (tdm : Bool) (n 
   bb_cmd_rt h
 
 example : CmdBB exP false 3 { cls := "BSgate", regs := [2, 0], dagger := true, pars := [.sym exFree, .sc (.flt (1/8))] } :=
-  ⟨rfl, by
+  ⟨by decide, rfl, by
     intro v hv; simp only [List.mem_cons, List.not_mem_nil, or_false] at hv
     rcases hv with rfl | rfl
-    · exact Or.inr (Or.inr ⟨rfl, Or.inl rfl, by decide⟩)
+    · exact Or.inr (Or.inr (Or.inr ⟨by decide, rfl, Or.inl rfl, by decide⟩))
     · trivial,
    Or.inr ⟨by decide, rfl, rfl, Or.inr ⟨by decide, fun _ => ⟨by decide, _, _, _, rfl, rfl,
-     Or.inr (Or.inr ⟨rfl, Or.inl rfl, by decide⟩)⟩⟩⟩⟩
+     Or.inr (Or.inr (Or.inr ⟨by decide, rfl, Or.inl rfl, by decide⟩))⟩⟩⟩⟩
 
 /-- **one command through XIR** (gates, preparations, channels, measurements; ordinary and TDM): returned
 unchanged, inverse flag included. -/
@@ -110,7 +110,7 @@ theorem roundtrip_xir_command (P : String → Option Sym) (tdm : Bool) (k n : Na
   xir_cmd_rt h
 
 example : CmdX exP true 2 3 { cls := "MeasureHomodyne", regs := [0], pars := [.sym (loopSym 1)], select := some (.sc (.flt 0)) } :=
-  ⟨rfl, Or.inl ⟨by decide, by decide, Or.inr ⟨_, rfl, Or.inl ⟨rfl, 1, by decide, rfl⟩⟩,
+  ⟨by decide, rfl, Or.inl ⟨by decide, by decide, Or.inr ⟨_, rfl, Or.inr (Or.inl ⟨rfl, 1, by decide, rfl⟩)⟩,
     (by intro v hv; cases hv; trivial), (by intro v hv; cases hv), Or.inl rfl⟩⟩
 
 /-- **the inverse flag is never silently dropped by the Blackbird writer**: for *every* command
@@ -151,17 +151,18 @@ theorem xir_inverse_flag (P : String → Option Sym) (tdm : Bool) (n : Nat) (c c
       · cases hr; rfl
   have hinv : (toXStmt tdm c).inverse = c.dagger := by unfold toXStmt; split <;> rfl
   unfold fromXStmt at h
+  simp only [bind, Except.bind] at h
+  split at h
+  · cases h
   split at h
   · rw [← hinv]; exact hb _ _ _ _ _ _ h
   · rw [← hinv]; exact hb _ _ _ _ _ _ h
-  · simp only [bind, Except.bind] at h
-    split at h
+  · split at h
     · cases h
     · split at h
       · cases h
       · rw [← hinv]; exact hb _ _ _ _ _ _ h
-  · simp only [bind, Except.bind] at h
-    split at h
+  · split at h
     · cases h
     · split at h
       · cases h
@@ -177,6 +178,21 @@ theorem to_xir_ignores_held_values (f : Sym → Option Sc) (p : Prog) : toXIR (p
   toXIR_reval f p
 
 example : exProg.reval (fun _ => none) ≠ exProg ∧ toXIR (exProg.reval fun _ => none) = toXIR exProg := by
+  decide +kernel
+
+/-- **the source tables the model transcribes are today's tables** (regenerated from `ops.py` and
+`blackbird_io.py` on every build): `NEGATION_INVERTS` is exactly the list of gates for which the `ops.Gate`
+convention "inverse = negated first parameter" is assumed (adding `MZgate`, a channel or a preparation
+breaks the build), every member is an operation class the readers accept, and the only constructors
+without arguments are those of `Fouriergate` (fixed parameter) and `Vacuum` (no parameter). -/
+theorem source_tables_agree :
+    SFV.Gen.ioNegationInverts = ["BSgate", "CKgate", "CXgate", "CZgate", "Dgate", "Kgate", "Pgate", "Rgate",
+      "S2gate", "Sgate", "Vgate", "Xgate", "Zgate"] ∧
+    (∀ cls ∈ SFV.Gen.ioClassNames ++ SFV.Gen.ioShorthands, negInverts cls = SFV.Gen.ioNegationInverts.contains cls) ∧
+    (∀ cls ∈ SFV.Gen.ioNegationInverts, SFV.Gen.ioClassNames.contains cls = true) ∧
+    SFV.Gen.ioNoArgCtors = ["Fouriergate", "Vacuum"] := by decide +kernel
+
+example : SFV.Gen.ioClassNames.length = 39 ∧ negInverts "MZgate" = false ∧ negInverts "LossChannel" = false := by
   decide +kernel
 
 /-- **`_factor_out_pi`**: for every integer `m`, the term `c*np.pi/d` printed for `m·π/12` denotes it
